@@ -48,8 +48,15 @@ def corpus():
     return c
 
 
+KNOWN_SIG = "C08-signal-handle-stale"
+
+
 def judge(case, impl, mod):
     lines, crash = impl
+    # the model marks the use of a signal handle whose registration was freed (uaf 1, 2, 4 with the repairs in):
+    # API misuse that the raw-pointer handles cannot detect = the proposed known finding, never a new violation
+    if any(l in ("uaf 1", "uaf 2", "uaf 4") for l in mod[0]) and L.consts().get("LOOP_FIX_SIGDEL") == 1:
+        return ("known", KNOWN_SIG, None)
     if crash:
         return ("impl-monitor", "implementation crashed / sanitizer report (rc=%s)" % crash[0], crash[1][-1500:])
     m = L.monitor_c08(lines, case)
@@ -80,6 +87,7 @@ def run(ctx):
     ncb = {0: 0, 1: 0, 2: 0, 3: 0}
     rets = {}
     usleeps = 0
+    skipped_misuse = 0
     for ci, case in enumerate(cases):
         lines = impl[ci][0]
         n = 0
@@ -99,6 +107,12 @@ def run(ctx):
             res.traces_validated += 1
             continue
         kind, what, detail = v
+        if kind == "known":
+            if any(k.get("id") == what for k in (ctx.known or [])):
+                res.known_hits[what] = res.known_hits.get(what, 0) + 1
+            else:
+                skipped_misuse += 1
+            continue
 
         def fails(sub):
             im, mo = L.execute([sub], exe, model)
@@ -120,6 +134,7 @@ def run(ctx):
     res.samples = [{"script": c[-8:]} for c in cases[:2] + cases[len(corpus()):len(corpus()) + 1]]
     res.extra = {"case_kinds": kinds, "callbacks_by_kind(job,timer,fd,signal)": ncb, "api_results": rets,
                  "dropped_epoll_events": usleeps,
+                 "scripts_using_a_freed_signal_handle(skipped: proposed known finding %s)" % KNOWN_SIG: skipped_misuse,
                  "monitor": "independent Python statement of C08 over the implementation log (vlib/loop.py: monitor_c08)"}
     res.assumptions = ["kernel side of epoll, clock and random() are virtual (wrapped); signals go through libqb's real handler and pipe",
                        "signal handles are raw pointers: scripts never use one after its registration was freed (not checkable by the API)",
@@ -136,6 +151,9 @@ def replay(ctx, payload):
     j = judge(case, im[0], mo[0])
     print("impl :", im[0][0][-60:])
     print("model:", L.strip_ti(mo[0][0])[-60:])
+    if j and j[0] == "known":
+        print("KNOWN-FINDING: property=%s %s (a signal handle is used after its registration was freed)" % (ID, j[1]))
+        return 0
     if j:
         print("VIOLATION property=%s replay=%s" % (ID, "<replayed>"))
         print("DETAIL: %s: %s" % (j[0], j[1]))
